@@ -69,6 +69,8 @@ func NewUser(id string) *Obj {
 	return o
 }
 
+func NewBox(id string) *Obj { return &Obj{Type: "Box", ID: id} }
+
 func NewItem(id string) *Obj {
 	return &Obj{Type: "Item", ID: id, Title: "t:" + id}
 }
@@ -420,7 +422,7 @@ func (e *exec) field(objType string, obj *Obj, c *collected, path string) (strin
 	// plain fields
 	if obj != nil {
 		switch objType + "." + f.Name {
-		case "User.id", "Item.id":
+		case "User.id", "Item.id", "Box.id":
 			return strconv.Quote(obj.ID), true
 		case "User.name":
 			if obj.Name == nil {
